@@ -128,6 +128,10 @@ func solveOne(o *Obligation, goal, suffix, workDir string, secs int, all bool) O
 	if o.Unit.Timeout > secs && !o.Cover {
 		secs = o.Unit.Timeout
 	}
+	return solveOneTry(o, goal, suffix, workDir, secs, all, false)
+}
+
+func solveOneTry(o *Obligation, goal, suffix, workDir string, secs int, all bool, isRetry bool) OblResult {
 	if o.Cover && secs > 3 {
 		secs = 3
 	}
@@ -245,6 +249,15 @@ func solveOne(o *Obligation, goal, suffix, workDir string, secs int, all bool) O
 			cancel()
 			break
 		}
+	}
+	if definitive == nil && !o.Cover && !isRetry {
+		// nothing decisive: one more attempt with three times the limit (the first attempt may
+		// have been starved by other obligations solved at the same time); unknown is never
+		// turned into a violation by load alone
+		cancel()
+		rr := solveOneTry(o, goal, suffix, workDir, min(3*secs, 90), all, true)
+		rr.All = append(r.All, rr.All...)
+		return rr
 	}
 	if definitive != nil {
 		r.Winner = *definitive
